@@ -36,13 +36,15 @@ def sh(cmd, cwd=None, env=None, timeout=3600, stdin=None, stdout=None):
 
 # ---------------------------------------------------------------- building
 
-def build_harness(race=False):
-    os.makedirs(WORK, exist_ok=True)
+def build_harness(race=False, outdir=None):
+    """build the Go harness against REPO's working tree into outdir (per check, so concurrent checks do not share a binary)"""
+    outdir = outdir or WORK
+    os.makedirs(outdir, exist_ok=True)
     mod = open(os.path.join(HARNESS, 'go.mod')).read().replace('=> /repo', '=> ' + REPO)
-    altmod = os.path.join(WORK, 'go.alt.mod')
+    altmod = os.path.join(outdir, 'go.alt.mod')
     open(altmod, 'w').write(mod)
-    shutil.copy(os.path.join(REPO, 'go.sum'), os.path.join(WORK, 'go.alt.sum'))
-    out = os.path.join(WORK, 'mpv-race' if race else 'mpv')
+    shutil.copy(os.path.join(REPO, 'go.sum'), os.path.join(outdir, 'go.alt.sum'))
+    out = os.path.join(outdir, 'mpv-race' if race else 'mpv')
     if os.path.exists(out):
         os.remove(out)  # never run a stale binary
     cmd = ['go', 'build', '-tags', 'verif', '-modfile', altmod, '-o', out]
@@ -238,7 +240,7 @@ def main(argv):
     cov = {}
 
     # 1. harness (also provides the extractor)
-    ok, out, mpv = build_harness()
+    ok, out, mpv = build_harness(outdir=wdir)
     if not ok:
         log(out)
         broken.append({'what': 'harness does not build against %s' % REPO, 'log': out[-2000:]})
